@@ -131,6 +131,9 @@ def run_unit(repo, spec_path, workdir, rlimit=None, timeout=900, with_canary=Tru
         gc = vspec.generate(repo, spec_path, canary=True) if with_canary else None
     except ScanError as e:
         res.undecided.append('extraction: %s' % e)
+        # the code no longer has the shape the rewrite rules / anchors expect: nothing can be verified;
+        # the check may still look for a concrete failing input on the real code
+        res.degraded = ['extraction failed: %s' % e]
         res.wall_s = time.time() - t0
         return res
     res.functions = g.functions
@@ -212,6 +215,7 @@ def run_unit(repo, spec_path, workdir, rlimit=None, timeout=900, with_canary=Tru
         secondary = [_clause_text(g, s, b2c) for s in spans if not s.get('is_primary')]
         obligation = '%s::%s::%s::%s' % (name, fn_name, kind, clause)
         res.failures.append(dict(obligation=obligation, unit=name, fn=fn_name, kind=kind, clause=clause,
+                                 gen_offset=(site_f or f or {}).get('gen_range', [-1])[0] if (site_f or f) else -1,
                                  in_extracted_fn=owner is not None, where=sid, at=secondary,
                                  message=msg, rendered=d.get('rendered', '')))
     if res.errors and not res.failures and not res.undecided:
